@@ -53,7 +53,7 @@ def gen_case(rng: random.Random, tier: str) -> dict:
         nd["script"] = []
         if rng.random() < 0.4:
             # legal answers that happen to be falsy
-            nd["resp"] = [rng.choice(["zero", "false", "empty_str", "empty_list", "ambiguous", "ambiguous", None]) for _ in nd["outs"]]  # ambiguous: an array-like answer whose comparison has no truth value
+            nd["resp"] = [rng.choice(["zero", "false", "empty_str", "empty_list", "ambiguous", "ambiguous", "dict_own_key", "dict_own_key", None]) for _ in nd["outs"]]  # ambiguous: an array-like answer whose comparison has no truth value
     # some interrupts also emit an ordering signal that a further node waits for
     extra = []
     for i in picks:
@@ -454,6 +454,22 @@ def _nested_identity(doc, base_vals, ref_args, res, rts, viol) -> None:
     ran = {h["n"] for h in w["rt"].history if h["k"] == "enter"}
     if ran & desc:
         viol.append(("nested:dependant_of_interrupt_ran_before_the_answer", {"ran": sorted(ran & desc)}))
+    # the PAUSED result of the OUTER run still holds what the outer graph computed in earlier steps: at least the outputs of the
+    # interrupt's upstream function nodes (they completed, and were committed, before the nested graph could start)
+    vals = out["values"] or {}
+    lost = {}
+    for h in w["rt"].history:
+        if h["k"] == "exit" and h.get("nk") is None and h["n"] in anc.get(first["name"], ()):
+            sp = w["rt"].node_specs.get(h["n"]) or {}
+            outs_n = sp.get("outs", [])
+            got = {outs_n[0]: h["v"]} if len(outs_n) == 1 else (dict(zip(outs_n, h["v"])) if isinstance(h["v"], tuple) else {})
+            for k_, v_ in got.items():
+                if k_ not in vals or canon(vals[k_]) != canon(v_):
+                    lost[k_] = [v_, vals.get(k_, "<absent>")]
+    if anc.get(first["name"]):
+        res["stats"]["probe_outer_values_before_nested_pause"] = 1
+    if lost:
+        viol.append(("nested:value_computed_before_pause_not_returned", {"lost(computed,returned)": lost, "depth": doc["nest"]}))
 
 
 def shrink_candidates(doc: dict):
